@@ -218,6 +218,7 @@ func c05Run(c *fw.Ctx) {
 	// implementation's business and are not compared)
 	c05Delegations(c)
 	c05Late(c)
+	c05HandlerErrors(c)
 	// AUTH dispatch to the auth handler
 	for v := 0; v < 3; v++ {
 		for _, a := range [][]string{{"AUTH", "pw"}, {"AUTH", "user", "pw"}, {"AUTH", "\r\n"}, {"AUTH", "u\x00", "p q"}} {
@@ -526,6 +527,9 @@ func c05Replay(raw json.RawMessage) (string, bool, error) {
 			}
 		}
 		cs.CallKeys = srv.CallKeys(cs.Calls, false)
+	}
+	if cs.Kind == "handler-error" {
+		return "", false, fmt.Errorf("handler-error cases are re-derived by the check itself; run ./check C05 quick")
 	}
 	if cs.Kind == "late" {
 		var lc c05LateCase
